@@ -109,7 +109,7 @@ def param_values_of(fun):
     """Parameter values in force: everything the model treats as a parameter at call time."""
     if hasattr(fun, "get_parameter_values"):
         cache = fun._cache if getattr(fun, "_cache", None) is not None else fun._create_cache()  # noqa: SLF001
-        return dict(cache.all_parameter_values)
+        return {k: cache.all_parameter_values[k] for k in sorted(cache.all_parameter_values)}
     return {}
 
 
